@@ -172,7 +172,27 @@ func CheckC15(run *evid.Run) {
 			}
 		}
 		for r, l := range x.Logs {
+			// every fifth replica is queried as a log REBUILT WITH A HOLE: loaded from its head list with one interior
+			// entry excluded (its predecessors then come in through skip references only, and hang off a head of their own)
+			holed := false
+			if (i+r)%3 == 2 && l.Len() >= 5 && l.Heads().Len() == 1 {
+				vs := l.Values().Slice()
+				hole := vs[1+rng.Intn(len(vs)-2)].GetHash()
+				isHead := false
+				for _, hd := range l.Heads().Slice() {
+					isHead = isHead || hd.GetHash().Equals(hole)
+				}
+				if !isHead {
+					if nl, err := x.W.LoadHash(l.Heads().Slice()[0].GetHash(), x.Writer[r], &hx.LoadOpts{ShouldExcl: func(c cid.Cid) bool { return c.Equals(hole) }}); err == nil && nl != nil && nl.Len() >= 3 && nl.Len() < l.Len() {
+						l = nl
+						holed = true
+						run.Count("replicas_queried_as_logs_rebuilt_with_a_hole", 1)
+					}
+				}
+			}
 			o := hx.Observe(l)
+			// "the heads by default": the entries of the log that no other entry of the log names as predecessor
+			o.Heads = model.Heads(o.Set)
 			size := len(o.Set)
 			if size == 0 || !totalOrder(h.Order, o.Set) {
 				continue
@@ -297,6 +317,12 @@ func CheckC15(run *evid.Run) {
 						run.Violate("C15/unknown-bound-no-error", d, wit(), "unknown upper bound not reported as an error (%s)", q)
 					}
 					run.Count("unknown_bound_queries", 1)
+					continue
+				}
+				if res.err != nil && holed && q.Upper == "lt" {
+					// an exclusive bound whose own predecessor the log does not hold (the entry right above the hole):
+					// what iteration means there is not pinned down by the property; the library reports an error
+					run.Count("lt_bounds_above_a_hole_skipped", 1)
 					continue
 				}
 				if res.err != nil {
